@@ -645,18 +645,17 @@ func (e *Env) RResolvePath() {
 		e.Run.Violation("R-RESOLVE", "resolvePath exists", "", "function missing")
 		return
 	}
-	var body []string
-	for _, st := range fd.Body.List {
-		body = append(body, stmtNorm(c, st))
-	}
-	got := strings.Join(body, " ;; ")
-	pos := e.Prog.Pos(fd.Pos())
-	e.Run.Check("R-RESOLVE", "resolvePath: declaring positions are filtered unless forced", pos,
-		strings.Contains(got, `if !force { if avoid[parentName+"."+parentField] { return "",nil; };`), "role filter missing or reshaped: "+got)
-	e.Run.Check("R-RESOLVE", "resolvePath: the resolver sees the file, the parent, the field name and the identifier", pos,
-		strings.Contains(got, "path,err := f.Resolver.ResolveIdent(f.file, parent, parentField, id)"), "ResolveIdent arguments: "+got)
-	e.Run.Check("R-RESOLVE", "resolvePath: vendor prefix removed from the result and from the local path before comparing", pos,
-		strings.Contains(got, "path = stripVendor(path)") && strings.Contains(got, `if !f.ResolveLocalPath && path == stripVendor(f.Path) { return "",nil; }`), got)
+	// resolvePath as a function of its inputs: the only non-empty result is the vendor-stripped
+	// answer of the resolver, asked with (file, parent, field name, identifier); it is returned
+	// exactly when the position is not a declaring one (or resolution is forced), the resolver
+	// did not fail, and the answer is not the (vendor-stripped) local path unless local paths are
+	// wanted. Errors are returned exactly when the resolver fails.
+	const ask = `f.Resolver.ResolveIdent(f.file, parent, parentField, id)`
+	e.checkReturns("R-RESOLVE", c, fd, "resolvePath", []wantReturn{{
+		"the vendor-stripped resolver answer, unless a declaring position (not forced), a resolver error, or the local path",
+		`stripVendor(` + ask + `)`,
+		`f.Resolver != nil && (force || !avoid[parentName+"."+parentField]) && (force || parentFieldType == "Expr") && res1(` + ask + `) == nil && (f.ResolveLocalPath || stripVendor(` + ask + `) != stripVendor(f.Path))`,
+	}}, `f.Resolver != nil && (force || !avoid[parentName+"."+parentField]) && (force || parentFieldType == "Expr") && res1(`+ask+`) != nil`)
 	e.stripVendorAnchored()
 }
 
@@ -760,22 +759,7 @@ func (e *Env) RResolverClauses() {
 			e.Run.Check("R-RESOLVER", strings.TrimPrefix(pkgPath, load.ModPath+"/decorator/resolver/")+"."+fn+": "+cl.what, e.Prog.Pos(fd.Pos()), strings.Contains(text, cl.text), "clause `"+cl.text+"` not found")
 		}
 	}
-	check(load.PkgGotypes, "DecoratorResolver", "ResolveIdent", []clause{
-		{"missing Uses is an error", `if r.Uses == nil { return "",errors.New(`},
-		{"selector: only a package name in X makes a qualified identifier", "pn,ok := obj.(*types.PkgName)"},
-		{"selector: the path is the imported package's", "return pn.Imported().Path(),nil"},
-		{"X must be found in Uses", "obj,ok := r.Uses[xid]"},
-		{"plain identifier looked up in Uses", "obj,ok := r.Uses[id]"},
-		{"struct fields get no path", `if v,ok := obj.(*types.Var); ok && v.IsField() { return "",nil; }`},
-		{"universe objects get no path", `if pkg == nil { return "",nil; }`},
-		{"otherwise the declaring package's path", "return pkg.Path(),nil"},
-	})
-	check(load.PkgGoast, "DecoratorResolver", "ResolveIdent", []clause{
-		{"import-table failures surface", `if err != nil { return "",err; }`},
-		{"only the Sel of a selector is resolved", `parentField != "Sel"`},
-		{"a locally declared X is not a package", `if xid.Obj != nil { return "",nil; }`},
-		{"name looked up in the file's import table", "imports[xid.Name]"},
-	})
+	e.resolveIdentReturns()
 	check(load.PkgGoast, "DecoratorResolver", "imports", []clause{
 		{"dot-imports are refused", `fmt.Errorf("goast.DecoratorResolver unsupported dot-import found for %s", path)`},
 		{"two imports under one name are refused", `if p,ok := imports[name]; ok { outer = fmt.Errorf(`},
@@ -817,3 +801,126 @@ func (e *Env) RResolverClauses() {
 }
 
 var _ = sort.Strings
+
+// funcReturn: one return statement of a function, with its path condition and its results printed
+// over the function's inputs (every local replaced by the expression that defines it).
+type funcReturn struct {
+	cond    string
+	results []string
+	pos     token.Pos
+}
+
+func returnsOf(c *schema.Ctx, fd *ast.FuncDecl) ([]funcReturn, bool) {
+	undo := c.InstallReaching(fd)
+	defer undo()
+	var out []funcReturn
+	good := true
+	var visit func(n ast.Node) bool
+	visit = func(n ast.Node) bool {
+		switch x := n.(type) {
+		case *ast.FuncLit:
+			return false
+		case *ast.ReturnStmt:
+			cond, ok := pathCond(c, fd.Body.List, x)
+			if !ok {
+				good = false
+			}
+			r := funcReturn{cond: cond, pos: x.Pos()}
+			for _, res := range x.Results {
+				r.results = append(r.results, c.ExprStr(res))
+			}
+			out = append(out, r)
+		}
+		return true
+	}
+	ast.Inspect(fd.Body, visit)
+	return out, good
+}
+
+// resolveIdentReturns: the two ident resolvers, as functions of their inputs. Every return's path
+// is either "" or the one expression the resolver is specified to produce, and the condition
+// under which that expression is returned is exactly (propositionally equivalent to) the
+// specified one. Names of locals, nesting of the ifs and the number of intermediate variables do
+// not matter.
+func (e *Env) resolveIdentReturns() {
+	check := func(pkgPath, label string, wants []wantReturn, errCond string) {
+		pkg := e.Prog.Pkg(pkgPath)
+		c := schema.CtxFor(e.Prog, pkgPath)
+		fd := load.FuncDecl(pkg, "DecoratorResolver", "ResolveIdent")
+		e.checkReturns("R-RESOLVER", c, fd, label+".ResolveIdent", wants, errCond)
+	}
+	const selX = `parent.(*SelectorExpr).X.(*Ident)`
+	check(load.PkgGotypes, "gotypes", []wantReturn{
+		{"a selector whose X is a package name resolves to the imported package's path",
+			`r.Uses[` + selX + `].(*types.PkgName).Imported().Path()`,
+			`r.Uses != nil && ok(parent.(*SelectorExpr)) && parentField == "Sel" && ok(` + selX + `) && ok(r.Uses[` + selX + `]) && ok(r.Uses[` + selX + `].(*types.PkgName))`},
+		{"any other used identifier resolves to its declaring package, except struct fields and universe objects",
+			`r.Uses[id].Pkg().Path()`,
+			`r.Uses != nil && !(ok(parent.(*SelectorExpr)) && parentField == "Sel") && ok(r.Uses[id]) && !(ok(r.Uses[id].(*types.Var)) && r.Uses[id].(*types.Var).IsField()) && r.Uses[id].Pkg() != nil`},
+	}, `r.Uses == nil`)
+	check(load.PkgGoast, "goast", []wantReturn{
+		{"the Sel of a selector whose X is an undeclared identifier resolves through the file's import table",
+			`r.imports(file)[` + selX + `.Name]`,
+			`res1(r.imports(file)) == nil && ok(parent.(*SelectorExpr)) && parentField == "Sel" && ok(` + selX + `) && ` + selX + `.Obj == nil && ok(r.imports(file)[` + selX + `.Name])`},
+	}, `res1(r.imports(file)) != nil`)
+}
+
+type wantReturn struct {
+	what, result, cond string
+}
+
+// checkReturns: fd, as a function of its inputs, returns (first result) either "" or one of the
+// specified expressions, each exactly under its specified condition (propositional equivalence
+// of path conditions), non-empty results come with a nil error, and an error is returned exactly
+// under errCond.
+func (e *Env) checkReturns(rule string, c *schema.Ctx, fd *ast.FuncDecl, label string, wants []wantReturn, errCond string) {
+	if fd == nil || fd.Body == nil {
+		e.Run.Violation(rule, label+" exists", "", "missing")
+		return
+	}
+	rets, ok := returnsOf(c, fd)
+	if !ok {
+		e.Run.Undecided(rule, label+" returns", e.Prog.Pos(fd.Pos()), "a return statement's path condition could not be computed")
+		return
+	}
+	conds := map[string][]string{}
+	for _, r := range rets {
+		if len(r.results) != 2 {
+			e.Run.Undecided(rule, label+" returns", e.Prog.Pos(r.pos), "bare return")
+			return
+		}
+		known := r.results[0] == `""`
+		for _, w := range wants {
+			if r.results[0] == w.result {
+				known = true
+			}
+		}
+		e.Run.Check(rule, label+": every returned path is \"\" or a specified expression", e.Prog.Pos(r.pos), known,
+			"returns "+r.results[0]+", which is none of the specified results")
+		if r.results[0] != `""` {
+			conds[r.results[0]] = append(conds[r.results[0]], paren(r.cond))
+			e.Run.Check(rule, label+": a path is returned with a nil error", e.Prog.Pos(r.pos), r.results[1] == "nil", "a non-empty path is returned together with "+r.results[1])
+		} else if r.results[1] != "nil" {
+			eq, dec := equivalentGuards(r.cond, errCond)
+			if !dec {
+				e.Run.Undecided(rule, label+": error return", e.Prog.Pos(r.pos), "condition not propositional: "+r.cond)
+			} else {
+				e.Run.Check(rule, label+": an error is returned exactly when specified", e.Prog.Pos(r.pos), eq, "error returned under `"+r.cond+"`, specified `"+errCond+"`")
+			}
+		}
+	}
+	for _, w := range wants {
+		got := strings.Join(conds[w.result], " || ")
+		if got == "" {
+			e.Run.Violation(rule, label+": "+w.what, e.Prog.Pos(fd.Pos()), "no return of "+w.result)
+			continue
+		}
+		eq, dec := equivalentGuards(got, w.cond)
+		if !dec {
+			e.Run.Undecided(rule, label+": "+w.what, e.Prog.Pos(fd.Pos()), "condition not propositional: "+got)
+			continue
+		}
+		e.Run.Check(rule, label+": "+w.what, e.Prog.Pos(fd.Pos()), eq,
+			"`"+w.result+"` is returned under `"+got+"`; specified: `"+w.cond+"`")
+	}
+}
